@@ -53,8 +53,8 @@ def metric_change_cotangent():
     for kind in ("Constrained", "ConstrainedHausdorff", "GaussianConstrained"):
         for first in ("dense", "diag", "identity"):
             for acls in (OnlineVarianceMetricAdapter, OnlineCovarianceMetricAdapter):
-                for n_chain in (1, 2):
-                    m = zoo.Model(3)
+                for n_chain, model_kw in ((1, {}), (2, {}), (2, {"curved": False, "const_jac": True})):
+                    m = zoo.Model(3, **model_kw)
                     system = zoo.make_system(kind, m, metric=first)
                     transition = types.SimpleNamespace(system=system)
                     adapter = acls()
@@ -71,7 +71,8 @@ def metric_change_cotangent():
                     else:
                         adapter.finalize(ads, states, transition, rngs)
                     v = max(float(np.max(np.abs(m._jac(st.pos) @ (system.metric.inv @ st.mom)))) for st in states)
-                    rp = {"engine": "metric-change", "kind": kind, "first": first, "adapter": acls.__name__, "n_chain": n_chain}
+                    rp = {"engine": "metric-change", "kind": kind, "first": first, "adapter": acls.__name__, "n_chain": n_chain,
+                          "model": model_kw}
                     yield (f"C04:{kind}:sampled-momentum-after-metric-change",
                            None if v < 1e-8 else f"{kind}: {acls.__name__}.finalize installed the adapted metric (was '{first}') and redrew the "
                            f"momentum of a live state outside the cotangent space: |J M^-1 p| = {v:.3g} (the Gram matrix cached in the state is stale)", rp)
@@ -87,7 +88,7 @@ def replay(rep):
         return out
     if rep.get("engine") == "metric-change":
         for sig, what, rp in metric_change_cotangent():
-            if what and all(rp.get(k) == rep.get(k) for k in ("kind", "first", "adapter", "n_chain")):
+            if what and all(rp.get(k) == rep.get(k) for k in ("kind", "first", "adapter", "n_chain", "model")):
                 out.violate(sig, what, rp)
         return out
     return c02.replay(rep, "C04")
